@@ -327,6 +327,17 @@ async function op_roundtrip(c) {
     if (w.error === null) {
         let r = await op_read({bytes_hex: w.bytes_hex, chunks: c.stream_chunks || null, encoding: c.encoding, delim: c.delim, policy: c.policy, has_header: false, comment_prefix: null});
         out.records = r.records; out.rwarnings = r.warnings; out.rerror = r.error;
+        if (c.also_stream) {
+            // the same bytes through the stream reader: in one chunk and cut in two
+            let n = w.bytes_hex.length / 2;
+            let cuts = [[n]];
+            if (n > 1) cuts.push([Math.floor(n / 2), n - Math.floor(n / 2)]);
+            out.stream = [];
+            for (let chunks of cuts) {
+                let rs = await op_read({bytes_hex: w.bytes_hex, chunks: chunks.filter((x) => x > 0), encoding: c.encoding, delim: c.delim, policy: c.policy, has_header: false, comment_prefix: null});
+                out.stream.push({records: rs.records, warnings: rs.warnings, error: rs.error, stuck: rs.stuck});
+            }
+        }
     }
     return out;
 }
